@@ -73,9 +73,38 @@ class _Twin(ast.NodeTransformer):
         return out
 
     # -- scopes: nested functions / classes / lambdas are left untouched
+    def _header(self, node):
+        """A nested def / lambda / class: its body is another scope, but its decorators, default values,
+        annotations, base classes are evaluated by f itself (they may bind f's names with a walrus)."""
+        for field in ("decorator_list", "bases"):
+            if hasattr(node, field):
+                setattr(node, field, [self.visit(e) for e in getattr(node, field)])
+        if hasattr(node, "keywords"):
+            for kw in node.keywords:
+                kw.value = self.visit(kw.value)
+        a = getattr(node, "args", None)
+        if isinstance(a, ast.arguments):
+            a.defaults = [self.visit(e) for e in a.defaults]
+            a.kw_defaults = [self.visit(e) if e is not None else None for e in a.kw_defaults]
+        return node
+
+    def visit_target_exprs(self, t):
+        """The expressions evaluated inside an assignment target (object of an attribute, object and index
+        of a subscript) belong to f's body like any other expression."""
+        if isinstance(t, (ast.Tuple, ast.List)):
+            t.elts = [self.visit_target_exprs(e) for e in t.elts]
+        elif isinstance(t, ast.Starred):
+            t.value = self.visit_target_exprs(t.value)
+        elif isinstance(t, ast.Attribute):
+            t.value = self.visit(t.value)
+        elif isinstance(t, ast.Subscript):
+            t.value = self.visit(t.value)
+            t.slice = self.visit(t.slice)
+        return t
+
     def visit_FunctionDef(self, node):
         if self.depth:
-            return node
+            return self._header(node)
         self.depth += 1
         pre = []
         a = node.args
@@ -111,11 +140,11 @@ class _Twin(ast.NodeTransformer):
         self.depth -= 1
         return new
 
-    visit_AsyncFunctionDef = lambda self, node: node
-    visit_Lambda = lambda self, node: node
+    visit_AsyncFunctionDef = lambda self, node: self._header(node)
+    visit_Lambda = lambda self, node: self._header(node)
 
     def visit_ClassDef(self, node):
-        return node
+        return self._header(node)
 
     # comprehensions: their iteration variables are not f's; a walrus inside binds in f's scope
     def _comp(self, node):
@@ -125,6 +154,7 @@ class _Twin(ast.NodeTransformer):
     # -- statements
     def visit_Assign(self, node):
         node.value = self.visit(node.value)
+        node.targets = [self.visit_target_exprs(t) for t in node.targets]
         post = []
         if len(node.targets) == 1 and isinstance(node.targets[0], (ast.Attribute, ast.Subscript)) and isinstance(node.targets[0].value, ast.Name):
             t = node.targets[0]
@@ -157,6 +187,7 @@ class _Twin(ast.NodeTransformer):
         return [node] + post
 
     def visit_AugAssign(self, node):
+        node.target = self.visit_target_exprs(node.target)
         node.value = self.visit(node.value)
         if isinstance(node.target, ast.Name):
             return [node, self.rebind(node.target.id, "aug", node)]
@@ -227,12 +258,18 @@ class _Twin(ast.NodeTransformer):
         return node
 
     def visit_With(self, node):
+        # `with A as x, B as y:` is `with A as x:` around `with B as y:` - x is bound (and reported)
+        # before B is evaluated
+        if len(node.items) > 1:
+            inner = ast.With(items=node.items[1:], body=node.body, lineno=node.lineno, col_offset=node.col_offset)
+            node = ast.With(items=node.items[:1], body=[inner], lineno=node.lineno, col_offset=node.col_offset)
+        it = node.items[0]
+        it.context_expr = self.visit(it.context_expr)
         pre = []
-        for it in node.items:
-            it.context_expr = self.visit(it.context_expr)
-            if it.optional_vars is not None:
-                for nm in self.target_names(it.optional_vars):
-                    pre.append(self.rebind(nm, "with", node))
+        if it.optional_vars is not None:
+            it.optional_vars = self.visit_target_exprs(it.optional_vars)
+            for nm in self.target_names(it.optional_vars):
+                pre.append(self.rebind(nm, "with", node))
         node.body = pre + self.body(node.body)
         return node
 
